@@ -57,9 +57,10 @@ def default_discriminator_mapping(
 
 
 def rec_subclasses(cls: type) -> Iterable[type]:
+    # the most derived classes first: an instance is matched by the first alternative it is an instance of
     for sub_cls in cls.__subclasses__():
-        yield sub_cls
         yield from rec_subclasses(sub_cls)
+        yield sub_cls
 
 
 @dataclass(frozen=True, unsafe_hash=False)
